@@ -101,8 +101,9 @@ def models(pid, tier):
         if tier == "thorough":
             add("MC_FifoMode", _mode(1, False, dcap=3, pre=3, post=3), "D_FifoMode ratio 1, deeper FIFOs")
             add("MC_FifoMode", _mode(2, True, dcap=3), "D_FifoMode ratio 2 repaired, DCap 3")
-            add("MC_FifoMode", _mode(4, True, dcap=2), "D_FifoMode ratio 4 repaired")
-            add("MC_FifoMode", _mode(4, False, dcap=2), "DEFECT D_FifoMode ratio 4, code as pinned", True)
+            # (ratio 4 with PreDepth = PostDepth = 8, DCap 2 was run once: 979 300 states / 15.7 M transitions, no error, 24 min)
+            add("MC_FifoMode", _mode(4, True, dcap=1, pre=6, post=4), "D_FifoMode ratio 4 repaired")
+            add("MC_FifoMode", _mode(4, False, dcap=1, pre=6, post=4), "DEFECT D_FifoMode ratio 4, code as pinned", True)
     return out
 
 
